@@ -405,6 +405,16 @@ func Gen(rng *rand.Rand, id int, p Profile) *Corpus {
 				n = 0 // empty documents: no trigrams, no lines; first/last in a shard they sit at the posting-list edges
 			}
 			content := RandContent(rng, n)
+			if rng.Intn(15) == 0 {
+				// long runs of 4-byte runes with a marker every 25 of them: between two rune-offset samples
+				// (every 100 runes) lie more than 3 bytes per rune, and some marker follows 80..99 such runes
+				var sb strings.Builder
+				for j := 0; j < 8; j++ {
+					sb.WriteString(strings.Repeat("😀", 25))
+					sb.WriteString(EmojiMarker(j))
+				}
+				content = sb.String() + content
+			}
 			if p.Binary && rng.Intn(12) == 0 {
 				content += "\x00x"
 			}
@@ -491,6 +501,9 @@ func (c *Corpus) PickPattern(rng *rand.Rand, fromName bool) string {
 	}
 	return "ab"
 }
+
+// EmojiMarker: the j-th marker inside the runs of 4-byte runes planted by Gen.
+func EmojiMarker(j int) string { return "q" + string(rune('0'+j)) + "z" }
 
 // OtherSpelling: the other member of a two-member fold orbit whose members lower-case to the same
 // rune (a<->A, ß<->ẞ); for larger orbits (k/K/Kelvin, s/S/long s: property C08) the plain case flip.
